@@ -229,6 +229,7 @@ func (e *Engine) applyAliases(verif string) {
 	if json.Unmarshal(raw, &base) != nil {
 		return
 	}
+	e.baseLocals = base
 	var keys []string
 	for k := range e.contracts {
 		keys = append(keys, k)
